@@ -37,7 +37,7 @@ def sides(law, p, q, i1, i2):
 
 class C18(Prop):
     id = 'C18'
-    rule_added = '8% of the discrete offline/online cases on Boolean-valued signals (every sample a Python bool, operands often the bare signals). 30% of the discrete online cases on objects that served another trace and were reset(). Bounded-future laws also through pastify()+update() under sampling periods {1 s, 500 ms, 250 ms, 2 s, 4 s}.'
+    rule_added = 'A tenth of the discrete ev-ev / once-once instances on two time scales (period 1 ms, outer window in bare seconds, inner window with the same numerals in ms). 8% of the discrete offline/online cases on Boolean-valued signals (every sample a Python bool, operands often the bare signals). 30% of the discrete online cases on objects that served another trace and were reset(). Bounded-future laws also through pastify()+update() under sampling periods {1 s, 500 ms, 250 ms, 2 s, 4 s}.'
     rule = ('for each of the 8 stated laws, operands p,q are random formulas (depth<=3), bounds random, traces '
             '1..30 samples; both sides are evaluated by the same real monitor kind (discrete offline: all laws; '
             'discrete online: the past laws; dense offline: all but the s_prev/s_next expansions) and compared at '
@@ -207,6 +207,17 @@ class C18(Prop):
         names = sorted(set(lang.variables(p) + lang.variables(q))) or ['x']
         case = {'law': law, 'kind': kind, 'p': lang.to_jsonable(p), 'q': lang.to_jsonable(q), 'i1': list(i1),
                 'i2': list(i2), 'data': lang.gen_trace(rng, names, n)}
+        if kind in ('dt_offline', 'dt_online') and law in ('ev-ev', 'once-once') and rng.random() < 0.1:
+            # two time scales in one law instance: sampling period 1 ms, default unit s; the outer window is written
+            # in (bare) seconds, the inner one with the same or similar numerals in ms - `eventually[0,2]
+            # eventually[0,2ms] p` against `eventually[0ms,2002ms] p`
+            a1 = rng.choice([0, 0, 1])
+            b1 = rng.randint(max(a1, 1), 2)
+            a2, b2 = (a1, b1) if rng.random() < 0.6 else tuple(sorted([rng.randint(0, 3), rng.randint(0, 3)]))
+            # (the operand is a plain predicate: rtamt's windows of 1000-2000 samples are costly enough)
+            p2 = lang.N(rng.choice(['geq', 'leq', 'gt']), lang.V(names[0]), lang.C(rng.choice([0.0, 1.0, 2.0])))
+            case.update({'i1': [a1 * 1000, b1 * 1000], 'i2': [a2, b2], 'two_scales': True, 'p': lang.to_jsonable(p2),
+                         'data': lang.gen_trace(rng, [names[0]], rng.randint(6, 24))})
         if kind in ('dt_offline', 'dt_online') and rng.random() < 0.08:
             # Boolean-valued signals: every sample is a Python bool (True/False), the operands of the law are often
             # the bare signals themselves
@@ -242,6 +253,12 @@ class C18(Prop):
     def run_side(self, kind, f, names, data, n, prelude=None):
         text = lang.to_text(f)
         sdb = {'typed': [True, False]} if self._booleans else None
+        if self._two_scales:
+            # (bounds are numbers of 1 ms samples: multiples of 1000 are printed as bare seconds, the rest in ms)
+            pr = lambda i: ('[%d,%d]' % (i[0] // 1000, i[1] // 1000) if (i[1] >= 1000 and i[0] % 1000 == 0 and i[1] % 1000 == 0)
+                            else '[%dms,%dms]' % (i[0], i[1]))
+            text = lang.to_text(f, ivl_printer=pr)
+            sdb = dict(sdb or {}, period=(1, 'ms', 0.1), unit='s')
         if kind == 'dt_offline':
             return drive.values(drive.dt_offline(text, names, data, n, sd=sdb))
         if kind == 'dt_online':
@@ -280,6 +297,9 @@ class C18(Prop):
         v.info['law:%s/%s' % (case['law'], kind)] = 1
         self._period = case.get('period')
         self._booleans = bool(case.get('booleans'))
+        self._two_scales = bool(case.get('two_scales'))
+        if self._two_scales:
+            v.info['class:two-time-scales'] = 1
         if self._booleans:
             v.info['class:boolean-valued-signals'] = 1
         if self._period:
